@@ -13,7 +13,7 @@ CHECKS = ["READ"]
 
 KEYS = ["a", "ab", "b", "$s", "$$s"]
 VALS = ["x", "7", "", "two words", "-3", "12 monkeys", "y"]
-PATS = ["*", "a*", "*b", "$$", "$$*", "b", "*$$s"]
+PATS = ["*", "a*", "*b", "$$", "$$*", "b", "*$$s", "$*", "*$*", "$", "**"]
 SYSTEM_KEYS = ["$$token", "$connections", "$admin", "d"]
 
 
@@ -39,8 +39,37 @@ def model_cases(tier, wd, res):
     res.coverage["model_seconds"] = round(secs, 1)
     cases = []
     for i, h in enumerate(hists):
-        steps = render.prefix_single_db() + render.steps_of_hist(h)
+        posts = [x.pop("post", None) for x in h]
+        pre = render.prefix_single_db()
+        steps = pre + render.steps_of_hist(h)
+        for j, po in enumerate(posts):
+            if po is not None:
+                steps[len(pre) + j]["expect_mem"] = po
         cases.append({"id": "m%d" % i, "steps": steps})
+    return cases
+
+
+def second_wave(found, by_id, limit=16):
+    """From each step after which the node's entries are not MC_Seq's: every sequence of up to three operations on the
+    key (write, increment, remove, snapshot), then the reads the property speaks about."""
+    import itertools
+    cases = []
+    for n, (sig, (cid, i, k)) in enumerate(sorted(found.items(), key=lambda x: str(x))[:limit]):
+        base = by_id[cid]["steps"][:i + 1]
+        ops = [[render.step("c1", {"op": "set", "k": k, "v": "x"})], [render.step("c1", {"op": "increment", "k": k, "n": 1})],
+               [render.step("c1", {"op": "remove", "k": k})],
+               [render.step("a", {"op": "snapshot", "reclaim": False}), {"tick": 1, "op": {"op": "tick"}}]]
+        for ln in (0, 1, 2, 3):
+            for seq in itertools.product(ops, repeat=ln):
+                steps = [dict(s) for s in base]
+                for grp in seq:
+                    steps += [dict(x) for x in grp]
+                steps += [render.step("c1", {"op": "get", "k": k}), render.step("c1", {"op": "keys", "p": "*"}),
+                          render.step("c1", {"op": "get-safe", "k": k}), render.step("c1", {"op": "increment", "k": k, "n": 1}),
+                          render.step("c1", {"op": "get", "k": k}), render.step("a", {"op": "keys", "p": "*"})]
+                for st in steps:
+                    st.pop("expect_mem", None)
+                cases.append({"id": "x%d_%d" % (n, len(cases)), "steps": steps})
     return cases
 
 
@@ -92,9 +121,22 @@ def run(tier, seed):
     events, runs = common.normalize_all(raws, norm_path)
     out = common.validate_into(res, norm_path, "Trace_KV.tla", "Trace_KV.cfg", CHECKS, devs, tab,
                                wd, by_id)
+    import wave2
+    found = wave2.drifts(raws, by_id)
+    w2 = second_wave(found, by_id)
+    out2 = {"runs": 0, "events": 0}
+    if w2:
+        wd2 = os.path.join(wd, "wave2")
+        os.makedirs(wd2, exist_ok=True)
+        raws2 = common.run_cases_parallel("seq", w2, wd2)
+        norm2 = os.path.join(wd2, "norm.ndjson")
+        common.normalize_all(raws2, norm2)
+        out2 = common.validate_into(res, norm2, "Trace_KV.tla", "Trace_KV.cfg", CHECKS, devs, tab, wd2,
+                                    {c["id"]: c for c in w2})
     res.coverage.update({
-        "traces_validated_against_impl": out["runs"],
-        "events_validated": out["events"],
+        "traces_validated_against_impl": out["runs"] + out2["runs"],
+        "events_validated": out["events"] + out2["events"],
+        "steps_where_memory_differs_from_MC_Seq": wave2.report(found), "second_wave_cases": len(w2),
         "model_generated_cases": n_model,
         "random_cases": len(cases) - n_model,
         "samples": [[s.get("line", s.get("op", {}).get("op")) for s in cases[len(cases) // 3]["steps"]],
